@@ -27,6 +27,8 @@ def run(an: Analysis, rep):
     rep.rule("R13.2", "only decoded jump targets are added, and every one of them", 3)
     rep.rule("R13.3", "a block is opened iff the first offset is a target; instructions appended unconditionally", 4)
     rep.rule("R13.4", "jump target index taken from the same sorted list", 2)
+    from .common import purity
+    rep.run(purity, an, rep, "R13.P", ["from_code"])
     it, _ = an.interp("from_code")
     pf = find_parser(an)
     cons = None
